@@ -87,6 +87,33 @@ class _Modal(Contract):
         rf = raw.snapshot_fn()
         return Arr((raw.axes[0],), lambda jd: rf((jd[0], (i,))), "complex")
 
+    def time_unit_lemma(self, c, w, dt, shift=None):
+        """C08: declaring the same samples at kappa times the sampling frequency (dt -> dt / kappa) multiplies every frequency by
+        kappa and leaves every damping ratio unchanged (the eigen-decomposition does not see dt)"""
+        i = S.integer("pole_i", lo=0)
+        kappa = S.real("kappa", pos=True)
+
+        def lem():
+            mu = w.cell(((i,),))
+            lam1 = continuous(mu, dt)
+            old, c.numpy_mode = c.numpy_mode, 0
+            try:
+                dt2 = sym.div(dt, kappa)
+            finally:
+                c.numpy_mode = old
+            lam2 = continuous(mu, dt2)
+            f1, x1 = freq_damp(lam1)
+            f2, x2 = freq_damp(lam2)
+            c.numpy_mode += 1
+            try:
+                ok = Not_(Or_(lam1.nan, f1.nan, x1.nan))
+                c.oblige("lemma", "time unit: pole scales with the declared sampling frequency", sym.Implies_(ok, And_(lam2.re == kappa.v * lam1.re, lam2.im == kappa.v * lam1.im)))
+                c.oblige("lemma", "time unit: frequency scales with the declared sampling frequency", sym.Implies_(ok, And_(Not_(f2.nan), f2.v == kappa.v * f1.v)))
+                c.oblige("lemma", "time unit: damping ratio does not depend on the declared sampling frequency", sym.Implies_(ok, And_(Not_(x2.nan), x2.v == x1.v)))
+            finally:
+                c.numpy_mode -= 1
+        c.subproof(i < w.shape[0], lem)
+
     def unit_lemma(self, c, phi):
         """C08: every finite reported shape has a component equal to 1 and none larger in magnitude"""
         i = S.integer("mode_i", lo=0)
@@ -132,6 +159,7 @@ class ac2mp(_Modal):
         Contract.check(me, c, pre, post, outcome)
         if outcome[0] == "return":
             me.unit_lemma(c, outcome[1][2])
+            me.time_unit_lemma(c, MM.eig(pre["A"], left=True)[0], pre["dt"])
 
     def _no_dt(me, c, A, C, dt, calc_unc=False):
         r = me.spec(c, A, C, dt, calc_unc)
@@ -197,6 +225,8 @@ class _Poly(_Modal):
         Contract.check(me, c, pre, post, outcome)
         if outcome[0] == "return":
             me.unit_lemma(c, outcome[1][2])
+            if me.method == "per":
+                me.time_unit_lemma(c, MM.eig(pre["A"])[0], pre["dt"])
             # roots with positive real part are blanked in every table
             fn, xi, phi, lam = outcome[1]
             A, dt = pre["A"], pre["dt"]
@@ -540,3 +570,18 @@ class ssi_ms_exact(_Exact):
                      "per-setup gains over four decades, br = 2m+2..2m+4, 800 samples; SSIcov_MS(cov_mm) and SSIdat_MS through MultiSetup_PreGER.run_by_name; "
                      "frequencies, damping and MAC against the global system at order 2m (tolerance 1e-4)")
     bounded_driver = {"driver": "c03_exact", "inputs": {"trials": 8, "trials_thorough": 80}}
+
+
+@register
+class covariance_meta(_Exact):
+    """C08's whole-pipeline clauses (gain, channel permutation, time unit through every algorithm class): relational
+    statements over SVD / QR / eig / csd in floating point - no contract in reach; metamorphic bounded stand-in."""
+    qualname = "pyoma2.setup.base.BaseSetup.run_by_name"
+    props = ("C08",)
+    name = "covariance under gain, channel order and time unit"
+    bounded_reason = ("unsupported: equivariance of the whole identification (SVD, QR, pseudo-inverse, eig, Welch estimates) under scaling, permutation and re-timing is a "
+                      "relational statement about floating-point kernels; the scaling-law checker planned in DESIGN section 3 was not built")
+    bounded_bound = ("3-5 channels, 3 modes, 4096 samples of noise-driven response; FDD (per, cor), EFDD, FSDD, SSIcov (cov_mm, cov_R), SSIdat, pLSCF through SingleSetup; gains 2^-20, 2^20 "
+                     "(exact, tolerance 1e-9), 3.7e-6, 4.2e5 (1e-5); sampling frequency x 2^-5, 2^6 (1e-9); one random channel permutation (1e-5); whole pole tables compared "
+                     "column by column as sets of (frequency, damping, shape), extracted shapes unit-normalised")
+    bounded_driver = {"driver": "c08_meta", "inputs": {"trials": 1, "trials_thorough": 6}}
